@@ -77,6 +77,13 @@ WFCells(g) ==
          /\ (n.tr = 0 /\ n.tc = 0) \/ \E k \in DOMAIN g.traits : g.traits[k].id = n.tr /\ g.traits[k].c = n.tc
     /\ g.absentLookupNil
 WellFormed(g) == WFAbs(g) /\ WFCells(g)
+(* modular genomes (covered by C01 for duplication and expression): the links of a module end in the genome's OWN node *)
+(* objects and refer to its OWN trait objects (ec = identity of the far-end node object, tc = of the trait, 0 = nil)    *)
+WFModCells(g) ==
+    \A i \in DOMAIN g.mods :
+       \A e \in { g.mods[i].ins[k] : k \in DOMAIN g.mods[i].ins } \cup { g.mods[i].outs[k] : k \in DOMAIN g.mods[i].outs } :
+          /\ \E k \in DOMAIN g.nodes : g.nodes[k].id = e.n /\ g.nodes[k].c = e.ec
+          /\ (e.t = 0 /\ e.tc = 0) \/ \E k \in DOMAIN g.traits : g.traits[k].id = e.t /\ g.traits[k].c = e.tc
 (* all input, bias and output nodes of the ancestor(s) are retained *)
 Retains(post, pre) == IBO(pre) \subseteq IBO(post)
 
